@@ -8,8 +8,11 @@ import (
 	"errors"
 	"fmt"
 	stdnet "net"
+	"os"
 	"strings"
 	"sync"
+	"sync/atomic"
+	"syscall"
 	"testing"
 	"time"
 
@@ -27,13 +30,62 @@ var errInconclusive = errors.New("harness: bounded wait expired")
 
 const wait = 30 * time.Second
 
+// Ports come from a block that belongs to this process, below the kernel's ephemeral range:
+// 10000 + (pid mod 400)*50 + k.  Nothing else on the box hands these out, so a port that one
+// of our remotes has just released is not taken by somebody else before the check dials it,
+// and an address nobody listens on stays that way.
+var portCounter atomic.Int64
+
+func nextPort() int {
+	return 10000 + (os.Getpid()%400)*50 + int(portCounter.Add(1)%50)
+}
+
 func freeAddr() (string, error) {
-	l, err := stdnet.Listen("tcp", "127.0.0.1:0")
-	if err != nil {
-		return "", err
+	var last error
+	for try := 0; try < 50; try++ {
+		a := fmt.Sprintf("127.0.0.1:%d", nextPort())
+		l, err := stdnet.Listen("tcp", a)
+		if err != nil {
+			last = err
+			continue
+		}
+		l.Close()
+		return a, nil
 	}
-	defer l.Close()
-	return l.Addr().String(), nil
+	return "", last
+}
+
+// reserve binds a TCP socket to a free loopback port without listening on it: connection
+// attempts are refused, no other process can take the port (and the kernel will not hand it
+// out as the source port of an outgoing connection, which on loopback could connect a dialer
+// to itself).  release frees it for the peer that is started later.
+func reserve() (addr string, release func(), err error) {
+	fd, err := syscall.Socket(syscall.AF_INET, syscall.SOCK_STREAM, 0)
+	if err != nil {
+		return "", nil, err
+	}
+	for try := 0; ; try++ {
+		err = syscall.Bind(fd, &syscall.SockaddrInet4{Port: nextPort(), Addr: [4]byte{127, 0, 0, 1}})
+		if err == nil {
+			break
+		}
+		if try >= 50 {
+			syscall.Close(fd)
+			return "", nil, err
+		}
+	}
+	sa, err := syscall.Getsockname(fd)
+	if err != nil {
+		syscall.Close(fd)
+		return "", nil, err
+	}
+	in4, ok := sa.(*syscall.SockaddrInet4)
+	if !ok {
+		syscall.Close(fd)
+		return "", nil, fmt.Errorf("unexpected socket address %T", sa)
+	}
+	var once sync.Once
+	return fmt.Sprintf("127.0.0.1:%d", in4.Port), func() { once.Do(func() { syscall.Close(fd) }) }, nil
 }
 
 func node(addr string) (*actor.Engine, *remote.Remote, string, error) {
@@ -379,10 +431,11 @@ func runEpisode(c UCase) error {
 		return err
 	}
 	defer ra.Stop()
-	dead, err := freeAddr()
+	dead, release, err := reserve()
 	if err != nil {
 		return fmt.Errorf("harness: %v", err)
 	}
+	defer release()
 	var (
 		mu      sync.Mutex
 		cond    = sync.NewCond(&mu)
@@ -430,6 +483,7 @@ func runEpisode(c UCase) error {
 		return fmt.Errorf("%w: no RemoteUnreachableEvent for %s", errInconclusive, dead)
 	}
 	// the peer comes up on that address; a later send must make a fresh, successful attempt
+	release()
 	b, rb, _, err := node(dead)
 	if err != nil {
 		return err
